@@ -187,7 +187,7 @@ def run_c20(tier):
         ("threads", "", 16, 96, 2, 0.05),
         ("threads", "sync", 16, 96, 2, 0.05),
         ("storm", "", 32, 192, 3, 0.1),
-        ("storm", "sync", 16, 96, 3, 0.1),
+        ("storm", "sync", 0, 96, 3, 0.1),
     ]
     msums, mvios, mstats = M.run("C20", _miri_jobs(plan, tier))
     return _finish("C20", tier, t0, sums, vios, msums, mvios, mstats, C20_RULE,
